@@ -36,6 +36,25 @@ pub struct MForm {
     pub s: String,
 }
 
+/// an upload form: text next to files (one optional, one list); an uploaded file may well be empty (`.gitkeep`, `__init__.py`)
+#[derive(Deserialize, Debug)]
+pub struct UForm<'req> {
+    pub title: String,
+    #[serde(borrow)]
+    pub doc: Option<ohkami::format::File<'req>>,
+    #[serde(rename = "pics", borrow, default)]
+    pub pics: Vec<ohkami::format::File<'req>>,
+}
+#[cfg(feature = "openapi")]
+impl ohkami::openapi::Schema for UForm<'_> {
+    fn schema() -> impl Into<ohkami::openapi::schema::SchemaRef> { ohkami::openapi::object() }
+}
+fn show_file(f: &ohkami::format::File<'_>) -> String { format!("{}|{}|{}", f.filename, f.mimetype, crate::rng::hex(f.content)) }
+async fn upload(Multipart(f): Multipart<UForm<'_>>) -> &'static str {
+    trace::push(Ev::Handler(27, vec![f.title.clone(), f.doc.as_ref().map(show_file).unwrap_or_else(|| "<none>".into()), f.pics.iter().map(show_file).collect::<Vec<_>>().join(",")]));
+    "ok"
+}
+
 fn show_form(f: &Form) -> Vec<String> {
     vec![f.a.to_string(), f.s.clone()]
 }
@@ -80,6 +99,7 @@ fn app() -> Ohkami {
     items.push(hook::Item::Handlers("/x/json".POST(|JSON(d): JSON<Doc>| { trace::push(Ev::Handler(21, show_doc(&d))); async { "ok" } })));
     items.push(hook::Item::Handlers("/x/form".POST(|URLEncoded(f): URLEncoded<Form>| { trace::push(Ev::Handler(22, show_form(&f))); async { "ok" } })));
     items.push(hook::Item::Handlers("/x/multipart".POST(|Multipart(f): Multipart<MForm>| { trace::push(Ev::Handler(23, vec![f.a.clone(), f.s.clone()])); async { "ok" } })));
+    items.push(hook::Item::Handlers("/x/upload".POST(upload)));
     items.push(hook::Item::Handlers("/x/text".POST(|Text(t): Text<String>| { trace::push(Ev::Handler(24, vec![t])); async { "ok" } })));
     // optional extractors
     items.push(hook::Item::Handlers("/o/json".POST(|d: Option<JSON<Doc>>| { trace::push(Ev::Handler(31, match &d { Some(JSON(d)) => show_doc(d), None => vec!["<none>".into()] })); async { "ok" } })));
@@ -237,7 +257,7 @@ fn enc_form(a: &str, s: &str, rng: &mut Rng) -> String {
 }
 
 fn gen_body_case(rng: &mut Rng) -> Case {
-    let kind = *rng.pick(&["query", "json", "form", "multipart", "text", "o-json", "o-form", "o-text", "combo", "combo2"]);
+    let kind = *rng.pick(&["query", "json", "form", "multipart", "upload", "text", "o-json", "o-form", "o-text", "combo", "combo2"]);
     let s_val = match rng.below(4) { 0 => String::new(), 1 => "hello world & more=1".into(), 2 => "狼 ohkami".into(), _ => rng.string_over(b"abc019", 1, 10) };
     let a_ok = rng.chance(3, 4);
     let a_val = if a_ok { rng.below(100000).to_string() } else { rng.pick(&["abc", "-1", "4294967296", "1.5", ""]).to_string() };
@@ -332,6 +352,35 @@ fn gen_body_case(rng: &mut Rng) -> Case {
             headers.push(("Content-Length".to_string(), body.len().to_string()));
             let exp = if gate_open { form_expect(23) } else { None };
             Case { method: "POST", target: "/x/multipart".into(), headers, body, expect: if judged { exp } else { Some(None) }, class: format!("multipart:{ct_class}:{}", if a_ok { "valid" } else { "invalid" }) }
+        }
+        "upload" => {
+            use crate::engines::c10::{encode, EncodeOpts, FormPart};
+            let b = "XbOuNdArY7";
+            let mut parts = vec![FormPart::Text { name: "title".into(), value: s_val.clone() }];
+            let file = |rng: &mut Rng, name: &str| -> (FormPart, String) {
+                let filename = rng.pick(&["a.png", ".gitkeep", "__init__.py", "notes.txt"]).to_string();
+                let mime = rng.pick(&["image/png", "text/plain", "application/octet-stream"]).to_string();
+                let cs: [&[u8]; 4] = [b"", b"", b"abc", b"\x00\xff\r\n--"];
+                let content = rng.pick(&cs).to_vec();
+                let shown = format!("{filename}|{mime}|{}", crate::rng::hex(&content));
+                (FormPart::File { name: name.into(), filename, mime, content }, shown)
+            };
+            let doc_shown = match rng.below(4) {
+                0 => "<none>".to_string(),
+                // what a browser sends for a file input nobody used
+                1 => { parts.push(FormPart::File { name: "doc".into(), filename: String::new(), mime: "application/octet-stream".into(), content: vec![] }); "<none>".to_string() }
+                _ => { let (p, sh) = file(rng, "doc"); parts.push(p); sh }
+            };
+            let mut pics_shown = vec![];
+            for _ in 0..rng.below(3) { let (p, sh) = file(rng, "pics"); parts.push(p); pics_shown.push(sh) }
+            let body = encode(&parts, &EncodeOpts { boundary: b.into(), extra_headers: false, extra_at: 0, lower_header_names: false, content_type_first: false });
+            let base = format!("multipart/form-data; boundary={b}");
+            let ctv = match ct_class { "exact" | "charset" => Some(base), "mismatch" => Some("text/plain".into()), "prefix-sharing" => Some(format!("multipart/form-datax; boundary={b}")), "truncated" => Some("multipart/form-data"[..1 + cut % 18].to_string()), "empty" => Some(String::new()), _ => None };
+            let mut headers = vec![];
+            if let Some(c) = ctv { headers.push(("Content-Type".to_string(), c)) }
+            headers.push(("Content-Length".to_string(), body.len().to_string()));
+            let exp = if gate_open { Some(Some((27, vec![s_val.clone(), doc_shown, pics_shown.join(",")]))) } else { None };
+            Case { method: "POST", target: "/x/upload".into(), headers, body, expect: if judged { exp } else { Some(None) }, class: format!("upload:{ct_class}") }
         }
         "text" | "o-text" => {
             let valid = rng.chance(3, 4);
